@@ -20,6 +20,7 @@ type AddModel struct {
 	Sel        map[string][]byte // path -> bytes to be staged
 	Gone       map[string]bool   // tracked paths that no longer exist -> unstaged
 	DontCare   map[string]bool   // paths whose staging the statement does not settle
+	Through    map[string][]byte // existing files named by a spelling that leads through a file ("f/", "f/.", "nodir/../f"): staged or left alone
 	ArgClasses []string
 }
 
@@ -54,6 +55,17 @@ func ModelAdd(pre *sandbox.Snap, args []string) *AddModel {
 			// an absolute spelling of something that is not on disk: outside the domain
 			m.DomainOK = false
 			m.ArgClasses = append(m.ArgClasses, "absolute-missing")
+			continue
+		}
+		if !strings.HasPrefix(a, "/") && !InGoit(c) && IsFileOnDisk(pre, c) && !resolvesOnDisk(pre, a) {
+			// the spelling names nothing the OS can find, the name it cleans to is an existing file: a refusal is
+			// legitimate, so is staging the file; the entry must not be lost
+			m.Unknown = append(m.Unknown, a)
+			if m.Through == nil {
+				m.Through = map[string][]byte{}
+			}
+			m.Through[c] = wt[c]
+			m.ArgClasses = append(m.ArgClasses, "through-file")
 			continue
 		}
 		if InGoit(c) {
@@ -144,6 +156,17 @@ func (m *AddModel) Expected(idx0 map[string]string) []map[string]string {
 		}
 	}
 	alts := []map[string]string{base}
+	for p, b := range m.Through {
+		if _, sel := m.Sel[p]; sel || m.Gone[p] {
+			continue // named by another argument as well: that one decides
+		}
+		// either left as it was (already in every alternative) or staged with the file's bytes
+		for _, a := range append([]map[string]string{}, alts...) {
+			alt := CopyMap(a)
+			alt[p] = gitfmt.BlobID(b)
+			alts = append(alts, alt)
+		}
+	}
 	if len(m.OpenDir) > 0 {
 		alt := CopyMap(base)
 		for _, d := range m.OpenDir {
@@ -551,4 +574,36 @@ func init() {
 		Run:    runC04,
 		Floors: []core.Floor{{Key: "C04.add.index", Min: 500}, {Key: "C04.rm.collateral", Min: 300}},
 	})
+}
+
+// resolvesOnDisk: would the operating system find something under this relative spelling? Components are resolved
+// from left to right: every component but the last must be an existing directory, also in front of ".." and ".",
+// and a trailing "/" demands a directory.
+func resolvesOnDisk(sn *sandbox.Snap, a string) bool {
+	var cur []string
+	isDir := func() bool { return len(cur) == 0 || sn.Dirs["w/"+strings.Join(cur, "/")] }
+	for _, part := range strings.Split(a, "/") {
+		switch part {
+		case "", ".":
+			if !isDir() {
+				return false
+			}
+		case "..":
+			if !isDir() || len(cur) == 0 {
+				return false
+			}
+			cur = cur[:len(cur)-1]
+		default:
+			if !isDir() {
+				return false
+			}
+			cur = append(cur, part)
+		}
+	}
+	if len(cur) == 0 {
+		return true
+	}
+	p := strings.Join(cur, "/")
+	_, isFile := sn.Files["w/"+p]
+	return isFile || sn.Dirs["w/"+p]
 }
